@@ -251,6 +251,23 @@ def case_unit(case):
         want = r.dim == {dname: Fraction(1)}
         if bool(q.check(dname)) != want:
             raise Violation("Quantity.check(base dimension)_disagrees", f"Q(1,{n!r}).check({dname!r}) != {want}")
+    # a bare number is compatible with exactly the dimensionless units (radian, count, bit, percent, ... included), from either entry point
+    for tag, fn in (("Quantity.is_compatible_with(number)", lambda: q.is_compatible_with(2)), ("ureg.is_compatible_with(q, number)", lambda: ureg.is_compatible_with(q, 2)),
+                    ("Unit.is_compatible_with(number)", lambda: ureg.Unit(n).is_compatible_with(2))):
+        s, v = attempt(fn)
+        if s == "err":
+            raise Violation(f"compatibility_with_number_raised:{exc_class(v)}", f"{tag} for {n!r}: {v!r}")
+        if bool(v) != (not r.dim):
+            raise Violation("compatibility_with_number_disagrees", f"{tag} for {n!r} (dimension {r.dim}) is {v}")
+    # a quantity that has been looked at and is then changed in place (and converted on) reports the dimension of its current units
+    other = "second" if n != "second" else "meter"
+    q2 = ureg.Quantity(6.0, n)
+    q2.dimensionality, q2.check("[length]")
+    q2 //= ureg.Quantity(2.0, n)
+    for tag, obj in (("after //=", q2), ("after //= and to()", q2.to("dimensionless")), ("after //= and * unit", q2 * ureg.Quantity(1, other))):
+        wantd = {} if "unit" not in tag else R.resolve(other).dim
+        if env.uc_to_dict(obj.dimensionality) != wantd or bool(obj.is_compatible_with(other)) != ("unit" in tag) or obj.check("[time]" if other == "second" else "[length]") != ("unit" in tag):
+            raise Violation("dimensionality_stale_after_in_place_operation", f"Q(6,{n!r}) {tag}: dimensionality {dict(obj.dimensionality)}, units {dict(obj._units)}")
 
 
 def run_units(task, tier, seed, col):
